@@ -232,13 +232,23 @@ def scenario(run, tape, clock, store, callers):
         fresh = R.replay_once(base_spec, run, store.open(read_only=True), base.rec_id)
         a, b = rep_summary(used), rep_summary(fresh)
     run.say('probe %s on %s: %s' % (probe_kind, pcaller.name, V.short(a, 300)))
-    run.ev('probe', probe_kind, a)
+    # the log must not depend on the hash seed: raw input keys may spell a set of strings in hash order (that is
+    # C06's subject), so only a key-free projection is logged
+    run.ev('probe', probe_kind, V.canon(project(a)))
     if a != b:
         what = 'outcome' if a[0] != b[0] else ('finalisation' if probe_kind != 'replay' and a[1] != b[1] else 'content')
         run.violate('probe_equals_fresh_recorder', '%s-%s' % (probe_kind, what),
                     'after history %s the probe %s differs from a fresh recorder:\n used : %s\n fresh: %s' % (kinds, probe_kind, V.short(a, 700), V.short(b, 700)))
     idle_checks(run, recorder, 'probe')
     return run
+
+
+def project(x):
+    if isinstance(x, tuple) and len(x) == 2 and isinstance(x[0], str) and x[0].startswith(('input:', 'output:')):
+        return ('key', x[0].split(' args=')[0], project(x[1]))
+    if isinstance(x, (list, tuple)):
+        return [project(i) for i in x]
+    return x
 
 
 class SkipRun(Exception):
